@@ -129,7 +129,7 @@ def main(run):
     if not quick:
         combos = [(g, k, fl, c) for g in rc.ALL_GRAPHS for k in ('snapshot', 'delete', 'clean') for fl, c in (('plain', 3), ('async', 2), ('plain', 1))]
     for i, (g, kind, fl, conc) in enumerate(combos):
-        for seed in range(run.seed * 100 + i, run.seed * 100 + i + (1 if quick else 4)):
+        for seed in range(run.seed * 100 + i, run.seed * 100 + i + 1):
             for order in (['jitter', 'slow-snapshot-objects'] if quick else list(GATES)):
                 if order == 'slow-snapshot-objects' and kind == 'clean':
                     continue
